@@ -42,6 +42,7 @@ CONSTANTS
   Weak_IgnoreMissingRemoval,  \* removal of a non-member silently dropped
   Weak_NoResort,              \* no sort by (power desc, address asc) after an update
   Weak_NoPenalty,             \* new validators enter with priority 0 instead of -1.125*total
+  Weak_PenaltyMulOverflow,    \* the penalty computed as -(tvp*9/8) in wrapping machine integers
   Weak_NoRescale,             \* RescalePriorities never divides
   Weak_NoCentre,              \* shiftByAvgProposerPriority does nothing
   Weak_TieHighAddr,           \* priority ties go to the HIGHER address
@@ -214,7 +215,12 @@ VerifyUpdates(updates, vals, removedPower) ==
 
 \* computeNewPriorities: a member keeps its priority; a new validator gets
 \* -(tvp + tvp>>3), tvp = total after updates before removals
-NewValidatorPriority(tvp) == IF Weak_NoPenalty THEN 0 ELSE -(tvp + (tvp \div 8))
+\* two's-complement wrap of a product into [IntMin, IntMax] (IntMax stands in for MaxInt64)
+WrapInt(x) == ((x - IntMin) % (2 * (IntMax + 1))) + IntMin
+NewValidatorPriority(tvp) ==
+  IF Weak_NoPenalty THEN 0
+  ELSE IF Weak_PenaltyMulOverflow THEN -TruncDiv(WrapInt(tvp * 9), 8)   \* tvp may reach 2*MaxTotal > IntMax/9
+  ELSE -(tvp + (tvp \div 8))
 ComputeNewPriorities(updates, vals, tvp) ==
   [i \in DOMAIN updates |->
      [a |-> updates[i].a, p |-> updates[i].p,
